@@ -568,7 +568,9 @@ def sphdist(ra1, dec1, ra2, dec2, units=["deg", "deg"]):
     dis = 2*np.arcsin(0.5*np.sqrt(dsq))
     w = dsq >= 3.99
     if np.any(w):
-        cross = np.cross(np.array([x1, y1, z1])[w], np.array([x2, y2, z2])[w])
+        v1 = np.broadcast_to(np.array([x1, y1, z1]), (3, dsq.size))[:, w]
+        v2 = np.broadcast_to(np.array([x2, y2, z2]), (3, dsq.size))[:, w]
+        cross = np.cross(v1, v2, axis=0)
         crosssq = cross[0]**2 + cross[1]**2 + cross[2]**2
         dis[w] = np.pi - np.arcsin(np.sqrt(crosssq))
 
